@@ -132,6 +132,15 @@ func runEnc(c encCase) harness.Result {
 		if !bytes.Equal(got, want) {
 			return harness.Fail("the frame returned by Bytes() changed after another request was serialised:\n  now  %x\n  was  %x", got, want)
 		}
+		if c.Framing == spec.RTU {
+			got[len(got)-1] ^= 0xA5 // the caller may do what it likes with the slice it was given: first only the CRC, then everything
+			if a := q.Bytes(); !bytes.Equal(a, want) {
+				return harness.Fail("after the caller changed the trailer of the frame it was given, serialising the same request again gives %x, want %x", a, want)
+			}
+		}
+		for i := range got {
+			got[i] ^= 0xEE
+		}
 		again := q.Bytes()
 		if !bytes.Equal(again, want) {
 			return harness.Fail("serialising the same request a second time gives %x, the first time %x", again, want)
